@@ -323,7 +323,7 @@ def run(case):
             try:
                 if k == "slice":
                     ix = op["index"]
-                    out = col[C.to_py_index(ix["tuple"])] if "tuple" in ix else col[C.to_py_item(ix["single"])]
+                    out = col[C.to_py_index(ix["tuple"], npint=C.npint_of(case))] if "tuple" in ix else col[C.to_py_item(ix["single"], C.npint_of(case))]
                 elif k == "select":
                     out = col[tuple(K(x) for x in op["keys"])]
                 elif k == "copy":
